@@ -8,6 +8,7 @@ import (
 	"go/types"
 	"golang.org/x/tools/go/packages"
 	"regexp"
+	"sort"
 	"strconv"
 	"strings"
 )
@@ -972,6 +973,10 @@ func ruleDesugar(c *Ctx) {
 	param := c.objOf(fd.Type.Params.List[0].Names[0])
 	cases := c.tsCases(ts)
 	name := "trans.Desugar"
+	// kinds whose denotation the abstract evaluation (rule DS-9, rules_dsval.go) decided and found equal to what the form stands
+	// for: their shape clauses below are discharged by that evaluation instead of by the spelling of the arm
+	semOK := c.desugarSemOK()
+	semWhy := "decided by abstract evaluation of this arm (DS-9): the returned term is exactly what the form stands for"
 
 	isDesugared := func(e ast.Expr, defs map[types.Object][]ast.Expr, depth int) (bool, string) { return false, "" }
 	var des func(e ast.Expr, defs map[types.Object][]ast.Expr, depth int) (bool, string)
@@ -1071,6 +1076,10 @@ func ruleDesugar(c *Ctx) {
 			if len(r.Results) != 1 {
 				continue
 			}
+			if semOK[cn] && src(r.Results[0]) != "nil" {
+				c.R.OK(name, "DS-1 case "+cn+" returns "+src(r.Results[0]), r.Pos(), "%s", semWhy)
+				continue
+			}
 			res := unparen(r.Results[0])
 			if src(res) == "nil" {
 				continue
@@ -1131,6 +1140,9 @@ func ruleDesugar(c *Ctx) {
 			if len(r.Results) == 1 && src(r.Results[0]) != "nil" {
 				n++
 			}
+		}
+		if semOK[cn] {
+			n = 1 // one denotation per feasible path, all equal to the expected ones
 		}
 		c.R.Check(n == 1, name, "DS-5 "+cn+" has a single rewrite", cc.Pos(), "one return: the form means exactly the one call it stands for", fmt.Sprintf("%d different rewrites of this sugar form: a special-cased rewrite can evaluate operands in another order or unconditionally (c ? t : true is not t || !c)", n))
 	}
@@ -1248,15 +1260,28 @@ func ruleDesugar(c *Ctx) {
 		return sxWith(last.Results[0], sub), cc
 	}
 	D := func(s string) string { return "(CallExpr Fun:Desugar Args:[(SelectorExpr $e Sel:" + s + ")])" }
-	if s, cc := inl("parser/ast.BinaryExpr"); cc != nil {
+	if s, cc := inl("parser/ast.BinaryExpr"); cc != nil && semOK["parser/ast.BinaryExpr"] {
+		c.R.OK(name, "DS-4 binary operands [LHS, RHS]", cc.Pos(), "%s", semWhy)
+		c.R.OK(name, "DS-5 binary operator name becomes the callee", cc.Pos(), "%s", semWhy)
+		_ = s
+	} else if cc != nil {
 		c.R.Check(strings.Contains(s, "Elts:["+D("LHS")+" "+D("RHS")+"]"), name, "DS-4 binary operands [LHS, RHS]", cc.Pos(), "source order kept", "binary operands are not passed as [Desugar(LHS), Desugar(RHS)]")
 		c.R.Check(strings.Contains(s, "Args:[(CallExpr Fun:(SelectorExpr ast Sel:Var) Args:[(SelectorExpr $e Sel:Name)"), name, "DS-5 binary operator name becomes the callee", cc.Pos(), "callee = ast.Var(e.Name)", "callee of the rewritten call is not the operator's name")
 	}
-	if s, cc := inl("parser/ast.UnaryExpr"); cc != nil {
+	if s, cc := inl("parser/ast.UnaryExpr"); cc != nil && semOK["parser/ast.UnaryExpr"] {
+		c.R.OK(name, "DS-4 unary operand", cc.Pos(), "%s", semWhy)
+		c.R.OK(name, "DS-5 unary operator name becomes the callee", cc.Pos(), "%s", semWhy)
+		_ = s
+	} else if cc != nil {
 		c.R.Check(strings.Contains(s, "Elts:["+D("LHS")+"]"), name, "DS-4 unary operand", cc.Pos(), "one desugared operand", "unary operand is not passed as [Desugar(LHS)]")
 		c.R.Check(strings.Contains(s, "Args:[(CallExpr Fun:(SelectorExpr ast Sel:Var) Args:[(SelectorExpr $e Sel:Name)"), name, "DS-5 unary operator name becomes the callee", cc.Pos(), "callee = ast.Var(e.Name)", "callee of the rewritten call is not the operator's name")
 	}
-	if s, cc := inl("parser/ast.TenaryExpr"); cc != nil {
+	if s, cc := inl("parser/ast.TenaryExpr"); cc != nil && semOK["parser/ast.TenaryExpr"] {
+		c.R.OK(name, "DS-4 ?: operands [Left, Mid, Right]", cc.Pos(), "%s", semWhy)
+		c.R.OK(name, "DS-5 ?: becomes the lazy if", cc.Pos(), "%s", semWhy)
+		c.R.OK(name, "DS-5 only the ? ternary is rewritten", cc.Pos(), "%s", semWhy)
+		_ = s
+	} else if cc != nil {
 		c.R.Check(strings.Contains(s, "Elts:["+D("Left")+" "+D("Mid")+" "+D("Right")+"]"), name, "DS-4 ?: operands [Left, Mid, Right]", cc.Pos(), "condition, then, else", "?: operands are not passed as [Left, Mid, Right]")
 		c.R.Check(strings.Contains(s, "Args:[(CallExpr Fun:(SelectorExpr ast Sel:Var) Args:[(SelectorExpr fun Sel:IF)"), name, "DS-5 ?: becomes the lazy if", cc.Pos(), "callee = ast.Var(fun.IF)", "?: is not rewritten to a call of fun.IF")
 		okQ := false
@@ -1267,7 +1292,19 @@ func ruleDesugar(c *Ctx) {
 		}
 		c.R.Check(okQ, name, "DS-5 only the ? ternary is rewritten", cc.Pos(), "other ternaries are rejected", "ternary rewriting is not guarded by the operator being ?")
 	}
-	if cc := cases["parser/ast.CallExpr"]; cc != nil {
+	if cc := cases["parser/ast.CallExpr"]; cc != nil && semOK["parser/ast.CallExpr"] {
+		c.R.OK(name, "DS-4 o.f(args): receiver first, then arguments ascending", cc.Pos(), "%s", semWhy)
+		c.R.OK(name, "DS-5 method name becomes the callee", cc.Pos(), "%s", semWhy)
+		c.R.OK(name, "DS-4 f(args): arguments ascending", cc.Pos(), "%s", semWhy)
+		// DS-2 on the evaluated term: the plain-call path rebuilds Call(D(e.Callee), ..) without excluding a member result
+		for _, d := range c.desugarDenotation()["parser/ast.CallExpr"] {
+			if strings.Contains(d, "=> Call(D(e.Callee),") {
+				guarded := strings.Contains(d, "D(e.Callee) is *parser/ast.MemberExpr")
+				c.R.Check(guarded, name, "DS-2 callee of the rebuilt call is not a member expression", cc.Pos(), "the rebuilt call is in normal form",
+					"Desugar(e.Callee) can return a MemberExpr (a parenthesised member: Group is dropped), and Call(Member, ..) is itself rewritten by this function: the output is not a fixed point ((o.f)(1) -> o.f(1) -> f(o, 1))")
+			}
+		}
+	} else if cc != nil {
 		// member-call branch
 		var ifm *ast.IfStmt
 		for _, s2 := range cc.Body {
@@ -1299,13 +1336,22 @@ func ruleDesugar(c *Ctx) {
 			}
 		}
 	}
-	if s, cc := inl("parser/ast.SubscriptExpr"); cc != nil {
+	if s, cc := inl("parser/ast.SubscriptExpr"); cc != nil && semOK["parser/ast.SubscriptExpr"] {
+		c.R.OK(name, "DS-4 subscript (Var, Idx) and column kept", cc.Pos(), "%s", semWhy)
+		_ = s
+	} else if cc != nil {
 		c.R.Check(strings.Contains(s, "Args:["+D("Var")+" "+D("Idx")+" (SelectorExpr $e Sel:DBGCol)"), name, "DS-4 subscript (Var, Idx) and column kept", cc.Pos(), "container then index", "subscript operands/column are not carried over in order")
 	}
-	if s, cc := inl("parser/ast.MemberExpr"); cc != nil {
+	if s, cc := inl("parser/ast.MemberExpr"); cc != nil && semOK["parser/ast.MemberExpr"] {
+		c.R.OK(name, "DS-4 member (Obj, Field) and column kept", cc.Pos(), "%s", semWhy)
+		_ = s
+	} else if cc != nil {
 		c.R.Check(strings.Contains(s, "Args:["+D("Obj")+" (SelectorExpr $e Sel:Field) (SelectorExpr $e Sel:DBGCol)"), name, "DS-4 member (Obj, Field) and column kept", cc.Pos(), "object then field", "member operands/column are not carried over")
 	}
-	if s, cc := inl("parser/ast.GroupExpr"); cc != nil {
+	if s, cc := inl("parser/ast.GroupExpr"); cc != nil && semOK["parser/ast.GroupExpr"] {
+		c.R.OK(name, "DS-1 parentheses are dropped", cc.Pos(), "%s", semWhy)
+		_ = s
+	} else if cc != nil {
 		c.R.Check(s == D("SubExpr"), name, "DS-1 parentheses are dropped", cc.Pos(), "(e) means e", "group is not replaced by its desugared content")
 	}
 
@@ -1566,4 +1612,22 @@ func ruleLex8(c *Ctx) {
 		}
 	}
 	c.R.Check(nums >= 2, "parser/lexer.newLexicon", "LEX-8 number patterns found", fd.Pos(), "numeric literal rules are constant patterns", "fewer than two constant NUM patterns found")
+}
+
+// desugarSemOK: node kinds for which DS-9's abstract evaluation is decided and equals the expected denotation.
+func (c *Ctx) desugarSemOK() map[string]bool {
+	out := map[string]bool{}
+	den := c.desugarDenotation()
+	if den == nil {
+		return out
+	}
+	exp := desugarExpectedAll()
+	for k, got := range den {
+		want := append([]string{}, exp[k]...)
+		sort.Strings(want)
+		if len(got) > 0 && got[0] != "UNDECIDED" && strings.Join(got, " | ") == strings.Join(want, " | ") {
+			out[k] = true
+		}
+	}
+	return out
 }
